@@ -387,14 +387,14 @@ pub fn circuit_breaker_builder() -> CircuitBreakerConfigBuilder<DefaultClassifie
 pub struct CircuitBreaker<S, C> {
     inner: S,
     pub(crate) circuit: Arc<Mutex<Circuit>>,
-    state_atomic: Arc<circuit::AtomicU8>,
+    state_atomic: Arc<std::sync::atomic::AtomicU8>,
     pub(crate) config: Arc<CircuitBreakerConfig<C>>,
 }
 
 impl<S, C> CircuitBreaker<S, C> {
     /// Creates a new `CircuitBreaker` wrapping the given service and configuration.
     pub(crate) fn new(inner: S, config: Arc<CircuitBreakerConfig<C>>) -> Self {
-        let state_atomic = Arc::new(circuit::AtomicU8::new(CircuitState::Closed as u8));
+        let state_atomic = Arc::new(std::sync::atomic::AtomicU8::new(CircuitState::Closed as u8));
         Self {
             inner,
             circuit: Arc::new(Mutex::new(Circuit::new_with_atomic(Arc::clone(
@@ -635,7 +635,7 @@ where
 pub struct CircuitBreakerWithFallback<S, C, Req, Res, Err> {
     inner: S,
     pub(crate) circuit: Arc<Mutex<Circuit>>,
-    state_atomic: Arc<circuit::AtomicU8>,
+    state_atomic: Arc<std::sync::atomic::AtomicU8>,
     pub(crate) config: Arc<CircuitBreakerConfig<C>>,
     fallback: SharedFallback<Req, Res, Err>,
     _phantom: std::marker::PhantomData<(Req, Res, Err)>,
